@@ -15,6 +15,12 @@ out=${OUT:-/verif/mutants/matrix.tsv}
 : > $out.tmp
 patches=("$@")
 if [ ${#patches[@]} -eq 0 ]; then patches=(/verif/seeded/*/patch.diff /verif/mutants/*.diff); fi
+# SHARD=i/n keeps every n-th patch starting at i (to run several isolated copies side by side)
+if [ -n "${SHARD:-}" ]; then
+  i=${SHARD%/*}; n=${SHARD#*/}; sel=(); k=0
+  for p in "${patches[@]}"; do [ $((k % n)) -eq $i ] && sel+=("$p"); k=$((k+1)); done
+  patches=("${sel[@]}")
+fi
 checks="C01 C02 C03 C04 C05 C06 C07 C08 C09 C10 C11 C12 C13 C14 C15 C16 C17 C18 C19"
 $MX/verif/check build || exit 2
 for p in "${patches[@]}"; do
